@@ -455,7 +455,7 @@ pub fn run(ctx: &Ctx) -> ! {
         let report = vcore::run_single(ctx, move |_| scenario(gen(seed.unwrap_or(0), tick)));
         vcore::finish(ctx, report, fin());
     }
-    let n = ctx.pick(6000, 200_000);
+    let n = ctx.pick(30_000, 600_000);
     let c2 = ctx.clone();
     let report = vcore::run_parallel(
         ctx,
